@@ -1,17 +1,25 @@
 // C05 residue measurement (DESIGN.md §2.4): the real float/double results of EVERY function
 // family of the property against a 113-bit (__float128) evaluation of the textbook sums.
 //
-//   bound rows    |impl - exact| <= c * u * sum|products| (+ one narrowing rounding for the mixed
-//                 S != T instantiations), c fixed per family; on the integer lattice every
-//                 intermediate is exact and equality is required (for the two dividing forms:
-//                 equality with the correctly rounded quotient).
+//   bound rows    |impl - exact| <= c * u * sum|products| * (1 + 1e-6) + (products that can underflow) * denorm_min / 2
+//                 (+ one narrowing rounding for the mixed S != T instantiations).  c is the number of roundings on the
+//                 longest path of the function as written (standard model of floating point arithmetic: the bound is
+//                 what the CODE AS WRITTEN guarantees; an extra rounding / a cancellation-prone rewrite exceeds it or
+//                 moves the recorded maximum, which c05.py compares with the calibrated clean-tree maximum).
+//                 On the integer lattice every intermediate is exact and equality is required (for the two dividing
+//                 forms: equality with the correctly rounded quotient, and the IEEE pattern +-inf / NaN when w == 0).
 //   exact rows    outerProduct (one rounding: must equal the rounded exact product), transposes.
-//   bitwise rows  spellings (operator / compound / member / static / aliased) against the operator
-//                 form; the mixed instantiations Vec<S> * Matrix<T> against the same-type
-//                 instantiation at the wider type rounded once per component.
+//   bitwise rows  spellings (operator / compound / member / static / aliased) against the operator form (w == 0 included);
+//                 the mixed instantiations Vec<S> * Matrix<T> against the same-type instantiation at the wider type
+//                 rounded once per component.
+//
+// Input classes: lattice [-3,3]; scaled [-1,1]; sparse (zeros with probability 1/3, the 16 zero patterns of Matrix44's
+// last column forced in turn); graded 2^-10..2^10; extreme: all entries of a call in ONE band, either so small that the
+// top-degree products straddle the subnormal boundary (2^(emin +- 4 deg)) or so large that they come within 2^-2deg..2^-6deg
+// of overflow (every exact value and partial sum stays in range, so a non-finite result is a failure).
 //
 // Output: RESIDUE-FAIL <function>:<types>:<input class> ... lines, one RESIDUE summary line, one
-// FAMILY line per (function, element types) with its own maximum (fraction of its own bound).
+// FAMILY line per (function, element types) with its own maxima and means (fractions of its own bound; the extreme class separately).
 #include <ImathVec.h>
 #include <ImathMatrix.h>
 #include <ImathMatrixAlgo.h>
@@ -31,23 +39,28 @@ using namespace IMATH_NAMESPACE;
 typedef __float128 Q;
 static std::mt19937_64 rng;
 static long evals = 0, lattice = 0, failures = 0, printed = 0;
-static long branchHits[2][16], affineHits[2], wzero = 0, wcond = 0;
+static long branchHits[2][16], affineHits[2], wzero = 0, wzeroLattice = 0, wcond = 0, xband[2];
 static std::vector<char> fm33seen (81, 0), fm44seen (4096, 0);
-static const char* MODE[4] = {"lattice", "scaled", "sparse", "graded"};
+enum { LATTICE = 0, SCALED = 1, SPARSE = 2, GRADED = 3, EXTREME = 4, NMODES = 5 };
+static const char* MODE[NMODES] = {"lattice", "scaled", "sparse", "graded", "extreme"};
 static Q qabs (Q x) { return x < 0 ? -x : x; }
+static const Q SLACK = (Q) 1.000001; // second-order terms of (1+u)^k
 
 template <class T> struct TN;
 template <> struct TN<float> { static const char* n () { return "float"; } enum { idx = 0 }; };
 template <> struct TN<double> { static const char* n () { return "double"; } enum { idx = 1 }; };
 template <class T> static Q unitRoundoff () { return (Q) std::numeric_limits<T>::epsilon () / 2; }
-template <class T> static Q tiny () { return (Q) std::numeric_limits<T>::denorm_min (); }
+// absolute error of np products whose results may be subnormal: half a denorm_min each
+template <class T> static Q under (double np) { return (Q) std::numeric_limits<T>::denorm_min () * (Q) (np * 0.5005); }
 
 struct Fam
 {
     std::string kind;
     double      c = 0;
-    long        evals = 0, lattice = 0, fails = 0, skipped = 0;
-    double      worst = 0; // max over non-lattice inputs of err / bound
+    long        evals = 0, lattice = 0, fails = 0, skipped = 0, extreme = 0;
+    double      worst = 0, worstX = 0; // max of err / bound over the scaled+sparse+graded classes / over the extreme class
+    double      sum = 0, sumX = 0;     // sums of err / bound (the MEAN is stable from run to run: c05.py compares it with the calibrated one)
+    long        cnt = 0, cntX = 0;
 };
 static std::map<std::string, Fam> fams;
 static Fam& fam (const std::string& name, const char* kind, double c)
@@ -57,15 +70,32 @@ static Fam& fam (const std::string& name, const char* kind, double c)
     return f;
 }
 
+// extreme class: degree of the polynomial the entries go into, band (0 = underflow, 1 = near overflow), exponent range of the
+// narrowest type taking part in the call
+static struct { int deg = 2, band = 0, emin = -126, emax = 127; } X;
+template <class R> static void extremeCall (int deg)
+{
+    X.deg  = deg;
+    X.band = (int) (rng () % 2);
+    X.emin = std::numeric_limits<R>::min_exponent - 1;
+    X.emax = std::numeric_limits<R>::max_exponent - 1;
+    ++xband[X.band];
+}
 template <class T> static T rnd (int mode)
 {
     std::uniform_real_distribution<double> U (-1, 1);
     switch (mode)
     {
-        case 0: return (T) (double) ((long) (rng () % 7) - 3);          // integer lattice
-        case 1: return (T) U (rng);                                      // well scaled
-        case 2: return (rng () % 3 == 0) ? (T) 0 : (T) U (rng);          // sparse
-        default: return (T) (U (rng) * std::pow (2.0, (double) ((long) (rng () % 21) - 10)));
+        case LATTICE: return (T) (double) ((long) (rng () % 7) - 3);
+        case SCALED: return (T) U (rng);
+        case SPARSE: return (rng () % 3 == 0) ? (T) 0 : (T) U (rng);
+        case GRADED: return (T) (U (rng) * std::pow (2.0, (double) ((long) (rng () % 21) - 10)));
+        default:
+        {
+            double m = 1.0 + 0.5 * (U (rng) + 1.0); // [1, 2)
+            int    e = X.band == 0 ? X.emin / X.deg - 4 + (int) (rng () % 9) : X.emax / X.deg - 8 + (int) (rng () % 6);
+            return (T) std::ldexp ((rng () % 2) ? m : -m, e);
+        }
     }
 }
 template <class T> static T rndNonzero (int mode)
@@ -81,21 +111,23 @@ static void failLine (const std::string& name, int mode, Fam& f, const char* why
         printf ("RESIDUE-FAIL %s:%s %s got=%.17g want=%.17g in=%s\n", name.c_str (), MODE[mode], why, (double) got, (double) want, in.c_str ());
 }
 
-// bound row:  |got - exact| <= c*unit + extra ; on the lattice got == latticeWant
+// bound row:  |got - exact| <= c*unit*SLACK + extra ; on the lattice got == latticeWant
 template <class F>
 static void check (const std::string& name, double c, Q got, Q exact, Q latticeWant, Q unit, Q extra, int mode, F&& in)
 {
     Fam& f = fam (name, "bound", c);
     ++f.evals; ++evals;
-    if (mode == 0)
+    if (mode == LATTICE)
     {
         ++f.lattice; ++lattice;
         if (!(got == latticeWant)) failLine (name, mode, f, "lattice-not-exact", got, latticeWant, in ());
         return;
     }
-    Q err = qabs (got - exact), bound = (Q) c * unit + extra;
+    Q err = qabs (got - exact), bound = (Q) c * unit * SLACK + extra;
     double frac = bound > 0 ? (double) (err / bound) : (err > 0 ? 1e30 : 0);
-    if (frac > f.worst) f.worst = frac;
+    if (!(err <= bound)) frac = std::max (frac, 1e30 > frac ? frac : 1e30); // NaN / inf
+    if (mode == EXTREME) { ++f.extreme; ++f.cntX; f.sumX += std::min (frac, 1e6); if (frac > f.worstX) f.worstX = frac; }
+    else { ++f.cnt; f.sum += std::min (frac, 1e6); if (frac > f.worst) f.worst = frac; }
     if (!(err <= bound))
     {
         char why[120];
@@ -108,7 +140,8 @@ template <class T, class F> static void same (const std::string& name, const cha
 {
     Fam& f = fam (name, kind, 0);
     ++f.evals; ++evals;
-    if (mode == 0) { ++f.lattice; ++lattice; }
+    if (mode == LATTICE) { ++f.lattice; ++lattice; }
+    if (mode == EXTREME) ++f.extreme;
     if (std::memcmp (&got, &want, sizeof (T)) != 0) failLine (name, mode, f, "differs-bitwise", (Q) got, (Q) want, in ());
 }
 
@@ -159,6 +192,11 @@ template <class T, int N> static typename Mat<T, N>::type rndMat (int mode)
     return a;
 }
 
+// Number of roundings on the longest path (see the header).  2x2 determinant a*d - b*c: 2.  3x3 by
+// x*(b*c - d*e) + ... : product, difference, product, two additions: 5.  Matrix44::determinant: fastMinor (5), product,
+// three accumulations (the first one is 0 - t, exact): 9.
+static const double C_DET[5] = {0, 0, 2, 5, 9};
+
 // ---- fastMinor: every index tuple (repeated and descending ones included), cycled over the rounds
 template <class T> static void runFastMinor (const Matrix33<T>& a, int mode, long round)
 {
@@ -170,7 +208,7 @@ template <class T> static void runFastMinor (const Matrix33<T>& a, int mode, lon
         fm33seen[t] = 1;
         Q d, sa;
         subDetQ (a, 2, r, cc, d, sa);
-        check (nm, 4, (Q) a.fastMinor (r[0], r[1], cc[0], cc[1]), d, d, unitRoundoff<T> () * sa, tiny<T> (), mode, [&] {
+        check (nm, C_DET[2], (Q) a.fastMinor (r[0], r[1], cc[0], cc[1]), d, d, unitRoundoff<T> () * sa, under<T> (2), mode, [&] {
             char b[64]; snprintf (b, 64, "rows %d %d cols %d %d | ", r[0], r[1], cc[0], cc[1]); return b + showM (a, 3); });
     }
 }
@@ -184,11 +222,10 @@ template <class T> static void runFastMinor (const Matrix44<T>& a, int mode, lon
         fm44seen[t] = 1;
         Q d, sa;
         subDetQ (a, 3, r, cc, d, sa);
-        check (nm, 11, (Q) a.fastMinor (r[0], r[1], r[2], cc[0], cc[1], cc[2]), d, d, unitRoundoff<T> () * sa, tiny<T> (), mode, [&] {
+        check (nm, C_DET[3], (Q) a.fastMinor (r[0], r[1], r[2], cc[0], cc[1], cc[2]), d, d, unitRoundoff<T> () * sa, under<T> (3), mode, [&] {
             char b[80]; snprintf (b, 80, "rows %d %d %d cols %d %d %d | ", r[0], r[1], r[2], cc[0], cc[1], cc[2]); return b + showM (a, 4); });
     }
 }
-template <class T> static void runFastMinor (const Matrix22<T>&, int, long) {}
 template <class T> static void runStatic (const Matrix44<T>& a, const Matrix44<T>& b, const Matrix44<T>& c, int mode)
 {
     std::string ty = std::string (":") + TN<T>::n ();
@@ -214,23 +251,11 @@ template <class T, int N> static void runMat (int mode, long round)
     const Q     u  = unitRoundoff<T> ();
     std::string L  = N == 2 ? "M22." : N == 3 ? "M33." : "M44.";
     std::string ty = std::string (":") + TN<T>::n ();
+    if (mode == EXTREME) extremeCall<T> (2);
     M a = rndMat<T, N> (mode), b = rndMat<T, N> (mode);
-    if (N == 4)
-    {
-        // every zero pattern of the last column (Matrix44::determinant skips x[i][3] == 0): forced in the sparse class
-        if (mode == 2)
-        {
-            int k = (int) ((round / 4) % 16);
-            for (int i = 0; i < 4; ++i) a[i][3] = (k >> i & 1) ? (T) 0 : rndNonzero<T> (mode);
-        }
-        if (mode == 1 && rng () % 2) { a[0][3] = a[1][3] = a[2][3] = 0; a[3][3] = 1; ++affineHits[TN<T>::idx]; } // affine pattern
-        int k = 0;
-        for (int i = 0; i < 4; ++i) if (a[i][3] == 0) k |= 1 << i;
-        ++branchHits[TN<T>::idx][k];
-    }
     auto inAB = [&] { return showM (a, N) + "| " + showM (b, N); };
     auto inA  = [&] { return showM (a, N); };
-    // product, all spellings
+    // product, all spellings: N products per entry, at most N roundings on a path
     M c = a * b, ca = a, cs = a;
     ca *= b;
     cs *= cs;
@@ -239,7 +264,7 @@ template <class T, int N> static void runMat (int mode, long round)
     {
         Q s = 0, sa = 0;
         for (int k = 0; k < N; ++k) { Q t = (Q) a[i][k] * (Q) b[k][j]; s += t; sa += qabs (t); }
-        check (L + "mul" + ty, N + 2, (Q) c[i][j], s, s, u * sa, tiny<T> (), mode, inAB);
+        check (L + "mul" + ty, N, (Q) c[i][j], s, s, u * sa, under<T> (N), mode, inAB);
         same<T> (L + "mulAssign" + ty, "bitwise", ca[i][j], c[i][j], mode, inAB);
         same<T> (L + "mulAssignSelf" + ty, "bitwise", cs[i][j], csq[i][j], mode, inA);
     }
@@ -252,35 +277,55 @@ template <class T, int N> static void runMat (int mode, long round)
         same<T> (L + "transposed" + ty, "exact", t1[i][j], a[j][i], mode, inA);
         same<T> (L + "transpose" + ty, "exact", t2[i][j], a[j][i], mode, inA);
     }
-    // trace
+    // trace: N-1 additions, no product (extreme class: subnormal / near-overflow entries themselves)
     {
+        if (mode == EXTREME) extremeCall<T> (1);
+        M tr = mode == EXTREME ? rndMat<T, N> (mode) : a;
         Q s = 0, sa = 0;
-        for (int i = 0; i < N; ++i) { s += (Q) a[i][i]; sa += qabs ((Q) a[i][i]); }
-        check (L + "trace" + ty, N + 2, (Q) a.trace (), s, s, u * sa, tiny<T> (), mode, inA);
+        for (int i = 0; i < N; ++i) { s += (Q) tr[i][i]; sa += qabs ((Q) tr[i][i]); }
+        check (L + "trace" + ty, N - 1, (Q) tr.trace (), s, s, u * sa, (Q) 0, mode, [&] { return showM (tr, N); });
     }
     // determinant
     {
+        if (mode == EXTREME) extremeCall<T> (N);
+        M d = mode == EXTREME ? rndMat<T, N> (mode) : a;
+        if (N == 4)
+        {
+            // every zero pattern of the last column (Matrix44::determinant skips x[i][3] == 0): forced in turn in the sparse class
+            if (mode == SPARSE)
+            {
+                int k = (int) ((round / NMODES) % 16);
+                for (int i = 0; i < 4; ++i) d[i][3] = (k >> i & 1) ? (T) 0 : rndNonzero<T> (mode);
+            }
+            if (mode == SCALED && rng () % 2) { d[0][3] = d[1][3] = d[2][3] = 0; d[3][3] = 1; ++affineHits[TN<T>::idx]; } // affine pattern
+            int k = 0;
+            for (int i = 0; i < 4; ++i) if (d[i][3] == 0) k |= 1 << i;
+            ++branchHits[TN<T>::idx][k];
+        }
         int id[4] = {0, 1, 2, 3};
-        Q   d, sa;
-        subDetQ (a, N, id, id, d, sa);
-        check (L + "determinant" + ty, 3 * N + 2, (Q) a.determinant (), d, d, u * sa, tiny<T> (), mode, inA);
+        Q   dq, sa;
+        subDetQ (d, N, id, id, dq, sa);
+        check (L + "determinant" + ty, C_DET[N], (Q) d.determinant (), dq, dq, u * sa, under<T> (N), mode, [&] { return showM (d, N); });
     }
 }
-// minorOf: every (r, c) against the Leibniz sum of the matrix with row r and column c removed
+// minorOf: every (r, c) against the Leibniz sum of the matrix with row r and column c removed; one row per (r, c)
 template <class T> static void runMinors (int mode, long round)
 {
     std::string ty = std::string (":") + TN<T>::n ();
     const Q     u  = unitRoundoff<T> ();
+    if (mode == EXTREME) extremeCall<T> (2);
     Matrix33<T> a3 = rndMat<T, 3> (mode);
+    if (mode == EXTREME) extremeCall<T> (3);
     Matrix44<T> a4 = rndMat<T, 4> (mode);
+    char nm[40];
     for (int r = 0; r < 3; ++r) for (int c = 0; c < 3; ++c)
     {
         int rows[2], cols[2], n = 0, m = 0;
         for (int i = 0; i < 3; ++i) { if (i != r) rows[n++] = i; if (i != c) cols[m++] = i; }
         Q d, sa;
         subDetQ (a3, 2, rows, cols, d, sa);
-        check ("M33.minorOf" + ty, 4, (Q) a3.minorOf (r, c), d, d, u * sa, tiny<T> (), mode, [&] {
-            char b[40]; snprintf (b, 40, "r=%d c=%d | ", r, c); return b + showM (a3, 3); });
+        snprintf (nm, 40, "M33.minorOf_%d_%d", r, c);
+        check (nm + ty, C_DET[2], (Q) a3.minorOf (r, c), d, d, u * sa, under<T> (2), mode, [&] { return showM (a3, 3); });
     }
     for (int r = 0; r < 4; ++r) for (int c = 0; c < 4; ++c)
     {
@@ -288,8 +333,8 @@ template <class T> static void runMinors (int mode, long round)
         for (int i = 0; i < 4; ++i) { if (i != r) rows[n++] = i; if (i != c) cols[m++] = i; }
         Q d, sa;
         subDetQ (a4, 3, rows, cols, d, sa);
-        check ("M44.minorOf" + ty, 11, (Q) a4.minorOf (r, c), d, d, u * sa, tiny<T> (), mode, [&] {
-            char b[40]; snprintf (b, 40, "r=%d c=%d | ", r, c); return b + showM (a4, 4); });
+        snprintf (nm, 40, "M44.minorOf_%d_%d", r, c);
+        check (nm + ty, C_DET[3], (Q) a4.minorOf (r, c), d, d, u * sa, under<T> (3), mode, [&] { return showM (a4, 4); });
     }
     runFastMinor (a3, mode, round);
     runFastMinor (a4, mode, round);
@@ -304,14 +349,15 @@ template <class T, class V> static void dotRows (const char* L, int N, const V& 
     Q s = 0, sa = 0, s2 = 0;
     for (int i = 0; i < N; ++i) { Q t = (Q) a[i] * (Q) b[i]; s += t; sa += qabs (t); s2 += (Q) a[i] * (Q) a[i]; }
     T d = a.dot (b);
-    check (std::string (L) + ".dot" + ty, N + 2, (Q) d, s, s, u * sa, tiny<T> (), mode, in);
+    check (std::string (L) + ".dot" + ty, N, (Q) d, s, s, u * sa, under<T> (N), mode, in);
     same<T> (std::string (L) + ".dotOp" + ty, "bitwise", a ^ b, d, mode, in);
-    check (std::string (L) + ".length2" + ty, N + 2, (Q) a.length2 (), s2, s2, u * s2, tiny<T> (), mode, in);
+    check (std::string (L) + ".length2" + ty, N, (Q) a.length2 (), s2, s2, u * s2, under<T> (N), mode, in);
 }
 template <class T> static void runVec (int mode)
 {
     std::string ty = std::string (":") + TN<T>::n ();
     const Q     u  = unitRoundoff<T> ();
+    if (mode == EXTREME) extremeCall<T> (2);
     Vec2<T> a2 (rnd<T> (mode), rnd<T> (mode)), b2 (rnd<T> (mode), rnd<T> (mode));
     Vec3<T> a (rnd<T> (mode), rnd<T> (mode), rnd<T> (mode)), b (rnd<T> (mode), rnd<T> (mode), rnd<T> (mode));
     Vec4<T> a4 (rnd<T> (mode), rnd<T> (mode), rnd<T> (mode), rnd<T> (mode)), b4 (rnd<T> (mode), rnd<T> (mode), rnd<T> (mode), rnd<T> (mode));
@@ -320,11 +366,11 @@ template <class T> static void runVec (int mode)
     dotRows<T> ("V4", 4, a4, b4, mode);
     auto in2 = [&] { return showV (a2, 2) + "| " + showV (b2, 2); };
     auto in3 = [&] { return showV (a, 3) + "| " + showV (b, 3); };
-    // 2-D cross
+    // 2-D cross: two products, one difference
     {
         Q p = (Q) a2.x * b2.y, q = (Q) a2.y * b2.x;
         T c = a2.cross (b2);
-        check ("V2.cross" + ty, 4, (Q) c, p - q, p - q, u * (qabs (p) + qabs (q)), tiny<T> (), mode, in2);
+        check ("V2.cross" + ty, 2, (Q) c, p - q, p - q, u * (qabs (p) + qabs (q)), under<T> (2), mode, in2);
         same<T> ("V2.crossOp" + ty, "bitwise", a2 % b2, c, mode, in2);
     }
     // 3-D cross, three spellings + the aliased one
@@ -341,13 +387,13 @@ template <class T> static void runVec (int mode)
         c4 %= c4;
         for (int i = 0; i < 3; ++i)
         {
-            check ("V3.cross" + ty, 4, (Q) c[i], cx[i], cx[i], u * cs[i], tiny<T> (), mode, in3);
+            check ("V3.cross" + ty, 2, (Q) c[i], cx[i], cx[i], u * cs[i], under<T> (2), mode, in3);
             same<T> ("V3.crossOp" + ty, "bitwise", c2[i], c[i], mode, in3);
             same<T> ("V3.crossAssign" + ty, "bitwise", c3[i], c[i], mode, in3);
             same<T> ("V3.crossAssignSelf" + ty, "bitwise", c4[i], c5[i], mode, in3);
         }
     }
-    // outer products: a single rounding per entry, so the result is the correctly rounded exact product
+    // outer products: a single rounding per entry, so the result is the correctly rounded exact product (subnormal results included)
     {
         Matrix33<T> o3 = outerProduct (a, b);
         Matrix44<T> o4 = outerProduct (a4, b4);
@@ -356,7 +402,8 @@ template <class T> static void runVec (int mode)
         for (int i = 0; i < 4; ++i) for (int j = 0; j < 4; ++j)
             same<T> ("M44.outerProduct" + ty, "exact", o4[i][j], (T) ((Q) a4[i] * (Q) b4[j]), mode, [&] { return showV (a4, 4) + "| " + showV (b4, 4); });
     }
-    // quaternion product: real part 4 products, each vector component 4 products
+    // quaternion product.  real part r*r' - (x*x' + y*y' + z*z'): at most 4 roundings on a path; vector part
+    // r*v' + v*r' + v x v': at most 3
     {
         Quat<T> p (rnd<T> (mode), a), q (rnd<T> (mode), b), r = p * q, r2 = p, r3 = p, sq = p * p;
         r2 *= q;
@@ -365,14 +412,14 @@ template <class T> static void runVec (int mode)
         Q d = 0, da = 0;
         for (int i = 0; i < 3; ++i) { Q t = (Q) a[i] * (Q) b[i]; d += t; da += qabs (t); }
         Q rr = (Q) p.r * q.r;
-        check ("Quat.mul.r" + ty, 6, (Q) r.r, rr - d, rr - d, u * (qabs (rr) + da), tiny<T> (), mode, inq);
-        check ("Quat.euclideanInnerProduct" + ty, 6, (Q) (p ^ q), rr + d, rr + d, u * (qabs (rr) + da), tiny<T> (), mode, inq);
+        check ("Quat.mul.r" + ty, 4, (Q) r.r, rr - d, rr - d, u * (qabs (rr) + da), under<T> (4), mode, inq);
+        check ("Quat.euclideanInnerProduct" + ty, 4, (Q) (p ^ q), rr + d, rr + d, u * (qabs (rr) + da), under<T> (4), mode, inq);
         same<T> ("Quat.mulAssign" + ty, "bitwise", r2.r, r.r, mode, inq);
         same<T> ("Quat.mulAssignSelf" + ty, "bitwise", r3.r, sq.r, mode, inq);
         for (int i = 0; i < 3; ++i)
         {
             Q t1 = (Q) p.r * (Q) b[i], t2 = (Q) q.r * (Q) a[i];
-            check ("Quat.mul.v" + ty, 6, (Q) r.v[i], t1 + t2 + cx[i], t1 + t2 + cx[i], u * (qabs (t1) + qabs (t2) + cs[i]), tiny<T> (), mode, inq);
+            check ("Quat.mul.v" + ty, 3, (Q) r.v[i], t1 + t2 + cx[i], t1 + t2 + cx[i], u * (qabs (t1) + qabs (t2) + cs[i]), under<T> (4), mode, inq);
             same<T> ("Quat.mulAssign" + ty, "bitwise", r2.v[i], r.v[i], mode, inq);
             same<T> ("Quat.mulAssignSelf" + ty, "bitwise", r3.v[i], sq.v[i], mode, inq);
         }
@@ -382,34 +429,52 @@ template <class T> static void runVec (int mode)
 // ---- vector x matrix, two-type templates: S = vector element, T = matrix element
 template <class S, class T> struct Types
 {
-    typedef decltype (S () * T ()) C; // the type the sums are computed in
+    typedef decltype (S () * T ()) C;                                                        // the type the sums are computed in
+    typedef typename std::conditional<sizeof (S) < sizeof (T), S, T>::type R;                // narrowest type: range of the extreme class
     static const bool narrowing = sizeof (S) < sizeof (C);
     static std::string ty ()
     {
         return std::is_same<S, T>::value ? std::string (":") + TN<S>::n () : std::string (":") + TN<S>::n () + "*" + TN<T>::n ();
     }
 };
-// plain sum of n products (+ optionally the constant row), computed at C and stored to S
+// plain sum of n terms (products, optionally the constant row), computed at C and stored to S: at most n roundings on a path
 template <class S, class T, class F>
 static void sumRow (const std::string& name, int nterms, S got, Q X, Q SX, int mode, F&& in)
 {
     typedef Types<S, T> Ty;
-    Q extra = tiny<S> () + (Ty::narrowing ? unitRoundoff<S> () * qabs (X) * (Q) 1.000001 : (Q) 0);
-    check (name, nterms + 2, (Q) got, X, X, unitRoundoff<typename Ty::C> () * SX, extra, mode, in);
+    Q extra = under<typename Ty::C> (nterms) + (Ty::narrowing ? unitRoundoff<S> () * qabs (X) * SLACK + under<S> (1) : (Q) 0);
+    check (name, nterms, (Q) got, X, X, unitRoundoff<typename Ty::C> () * SX, extra, mode, in);
 }
-// homogeneous divide: got = fl (fl (X) / fl (W))
+// homogeneous divide: got = fl (fl (X) / fl (W)),  |fl (X) - X| <= dx = n u SX + underflow,  same for W;  requires dw <= |W| / 64
 template <class S, class T, class F>
 static void divRow (const std::string& name, int nterms, S got, Q X, Q SX, Q W, Q SW, int mode, F&& in)
 {
     typedef Types<S, T> Ty;
-    Fam& f = fam (name, "bound", (nterms + 2) * 4.0 / 3.0);
+    const double c = nterms * 64.0 / 63.0;
+    Fam&    f  = fam (name, "bound", c);
     const Q uc = unitRoundoff<typename Ty::C> (), us = unitRoundoff<S> ();
-    if (W == 0) { ++wzero; ++f.skipped; return; }
-    if ((Q) (nterms + 2) * uc * SW * 4 > qabs (W)) { ++wcond; ++f.skipped; return; } // w itself has lost its leading digits
+    const Q ud = under<typename Ty::C> (nterms) + (Ty::narrowing ? under<S> (1) : (Q) 0); // absolute (underflow) part of dx, dw
+    if (((Q) nterms * uc * SW + ud) * 64 > qabs (W)) { ++wcond; ++f.skipped; return; } // w itself has lost its leading digits
     Q q = X / W;
     Q unit  = uc * (SX + qabs (q) * SW) / qabs (W);
-    Q extra = tiny<S> () + (Ty::narrowing ? (Q) 3.01 : (Q) 1.01) * us * qabs (q);
-    check (name, (nterms + 2) * 4.0 / 3.0, (Q) got, q, (Q) (S) q, unit, extra, mode, in);
+    Q extra = under<S> (1) + (Ty::narrowing ? (Q) 3.01 : (Q) 1.01) * us * qabs (q) + (Q) c * ud * (1 + qabs (q)) / qabs (W);
+    check (name, c, (Q) got, q, (Q) (S) q, unit, extra, mode, in);
+}
+// w == 0: x / w is IEEE-defined; on the lattice x and w are exact, so the result must be the infinity of the sign of x (w is +0:
+// an exactly cancelling sum, or products of zeros plus the +0 constant) or NaN when x == 0; elsewhere it must not be finite
+template <class S, class F> static void wZeroRow (const std::string& name, S got, Q X, S wS, int mode, F&& in)
+{
+    Fam& f = fam (name, "exact", 0);
+    ++f.evals; ++evals;
+    if (mode == EXTREME) ++f.extreme;
+    if (mode == LATTICE)
+    {
+        ++f.lattice; ++lattice; ++wzeroLattice;
+        S want = X == 0 ? std::numeric_limits<S>::quiet_NaN () : (S) ((X > 0 ? (S) 1 : (S) -1) / wS);
+        bool ok = X == 0 ? std::isnan (got) : (std::memcmp (&got, &want, sizeof (S)) == 0);
+        if (!ok) failLine (name, mode, f, "not-the-IEEE-quotient-by-zero", (Q) got, (Q) want, in ());
+    }
+    else if (std::isfinite (got)) failLine (name, mode, f, "finite-result-of-a-division-by-zero", (Q) got, (Q) 0, in ());
 }
 
 template <class S, class T> static void runVecMat (int mode)
@@ -418,23 +483,33 @@ template <class S, class T> static void runVecMat (int mode)
     typedef typename Ty::C   C;
     const std::string        ty = Ty::ty ();
     const bool               mixed = !std::is_same<S, T>::value;
+    if (mode == EXTREME) extremeCall<typename Ty::R> (2);
     Vec2<S>     v2 (rnd<S> (mode), rnd<S> (mode));
     Vec3<S>     v3 (rnd<S> (mode), rnd<S> (mode), rnd<S> (mode));
     Vec4<S>     v4 (rnd<S> (mode), rnd<S> (mode), rnd<S> (mode), rnd<S> (mode));
     Matrix22<T> m2 = rndMat<T, 2> (mode);
     Matrix33<T> m3 = rndMat<T, 3> (mode);
     Matrix44<T> m4 = rndMat<T, 4> (mode);
-    if (mode != 0 && mode != 2 && rng () % 4 == 0) { m4[0][3] = m4[1][3] = m4[2][3] = 0; m4[3][3] = 1; m3[0][2] = m3[1][2] = 0; m3[2][2] = 1; } // affine
+    if ((mode == SCALED || mode == GRADED) && rng () % 4 == 0) { m4[0][3] = m4[1][3] = m4[2][3] = 0; m4[3][3] = 1; m3[0][2] = m3[1][2] = 0; m3[2][2] = 1; } // affine
+    if (mode == SPARSE && rng () % 8 == 0) { m4[0][3] = m4[1][3] = m4[2][3] = m4[3][3] = 0; m3[0][2] = m3[1][2] = m3[2][2] = 0; }                  // w == 0
+    // matrices of the homogeneous forms: in the extreme class the constant row is added to PRODUCTS of two entries, so it gets their magnitude
+    Matrix33<T> m3h = m3;
+    Matrix44<T> m4h = m4;
+    if (mode == EXTREME)
+    {
+        for (int j = 0; j < 4; ++j) m4h[3][j] = (T) ((C) m4[3][j] * (C) rnd<S> (mode));
+        for (int j = 0; j < 3; ++j) m3h[2][j] = (T) ((C) m3[2][j] * (C) rnd<S> (mode));
+    }
     auto in22 = [&] { return showV (v2, 2) + "| " + showM (m2, 2); };
-    auto in23 = [&] { return showV (v2, 2) + "| " + showM (m3, 3); };
+    auto in23 = [&] { return showV (v2, 2) + "| " + showM (m3h, 3); };
     auto in33 = [&] { return showV (v3, 3) + "| " + showM (m3, 3); };
-    auto in34 = [&] { return showV (v3, 3) + "| " + showM (m4, 4); };
+    auto in34 = [&] { return showV (v3, 3) + "| " + showM (m4h, 4); };
     auto in44 = [&] { return showV (v4, 4) + "| " + showM (m4, 4); };
     // wide copies for the "computed at the wider type, rounded once" reference of the mixed instantiations
-    Matrix22<C> w2; Matrix33<C> w3; Matrix44<C> w4;
+    Matrix22<C> w2; Matrix33<C> w3, w3h; Matrix44<C> w4, w4h;
     for (int i = 0; i < 2; ++i) for (int j = 0; j < 2; ++j) w2[i][j] = (C) m2[i][j];
-    for (int i = 0; i < 3; ++i) for (int j = 0; j < 3; ++j) w3[i][j] = (C) m3[i][j];
-    for (int i = 0; i < 4; ++i) for (int j = 0; j < 4; ++j) w4[i][j] = (C) m4[i][j];
+    for (int i = 0; i < 3; ++i) for (int j = 0; j < 3; ++j) { w3[i][j] = (C) m3[i][j]; w3h[i][j] = (C) m3h[i][j]; }
+    for (int i = 0; i < 4; ++i) for (int j = 0; j < 4; ++j) { w4[i][j] = (C) m4[i][j]; w4h[i][j] = (C) m4h[i][j]; }
 
     // V2 x M22, V3 x M33, V4 x M44 (plain), operator and compound; M22::multDirMatrix is the same sum
     {
@@ -485,85 +560,81 @@ template <class S, class T> static void runVecMat (int mode)
         Q X[3], SX[3], D[2], SD[2];
         for (int j = 0; j < 3; ++j)
         {
-            X[j] = (Q) m3[2][j]; SX[j] = qabs (X[j]);
+            X[j] = (Q) m3h[2][j]; SX[j] = qabs (X[j]);
             Q d = 0, sd = 0;
-            for (int i = 0; i < 2; ++i) { Q t = (Q) v2[i] * (Q) m3[i][j]; d += t; sd += qabs (t); }
+            for (int i = 0; i < 2; ++i) { Q t = (Q) v2[i] * (Q) m3h[i][j]; d += t; sd += qabs (t); }
             X[j] += d; SX[j] += sd;
             if (j < 2) { D[j] = d; SD[j] = sd; }
         }
         Vec2<S> rd;
-        m3.multDirMatrix (v2, rd);
+        m3h.multDirMatrix (v2, rd);
         Vec2<C> refd;
-        w3.multDirMatrix (Vec2<C> ((C) v2.x, (C) v2.y), refd);
+        w3h.multDirMatrix (Vec2<C> ((C) v2.x, (C) v2.y), refd);
         for (int j = 0; j < 2; ++j)
         {
             sumRow<S, T> ("M33.multDirMatrix" + ty, 2, rd[j], D[j], SD[j], mode, in23);
             if (mixed) same<S> ("M33.multDirMatrix" + ty + ":vs-widened", "bitwise", rd[j], (S) refd[j], mode, in23);
         }
-        // the division is only performed when w != 0 (w == 0 is outside the clause: the result is inf/nan)
-        C wc = (C) v2.x * (C) m3[0][2] + (C) v2.y * (C) m3[1][2] + (C) m3[2][2];
-        if ((S) wc != 0)
+        // the three spellings are compared with one another whatever w is
+        Vec2<S> r = v2 * m3h, ra = v2, rm;
+        ra *= m3h;
+        m3h.multVecMatrix (v2, rm);
+        Vec3<C> h = Vec3<C> ((C) v2.x, (C) v2.y, (C) 1) * w3h; // same-type plain instantiation at the wide type
+        S       wS = (S) h[2];
+        if (wS == 0) ++wzero;
+        for (int j = 0; j < 2; ++j)
         {
-            Vec2<S> r = v2 * m3, ra = v2, rm;
-            ra *= m3;
-            m3.multVecMatrix (v2, rm);
-            Vec3<C> h = Vec3<C> ((C) v2.x, (C) v2.y, (C) 1) * w3; // same-type plain instantiation at the wide type
-            for (int j = 0; j < 2; ++j)
-            {
-                divRow<S, T> ("V2.mulM33" + ty, 3, r[j], X[j], SX[j], X[2], SX[2], mode, in23);
-                same<S> ("V2.mulAssignM33" + ty, "bitwise", ra[j], r[j], mode, in23);
-                same<S> ("M33.multVecMatrix" + ty, "bitwise", rm[j], r[j], mode, in23);
-                if (mixed) same<S> ("V2.mulM33" + ty + ":vs-widened", "bitwise", r[j], (S) ((S) h[j] / (S) h[2]), mode, in23);
-            }
+            same<S> ("V2.mulAssignM33" + ty, "bitwise", ra[j], r[j], mode, in23);
+            same<S> ("M33.multVecMatrix" + ty, "bitwise", rm[j], r[j], mode, in23);
+            if (mixed) same<S> ("V2.mulM33" + ty + ":vs-widened", "bitwise", r[j], (S) ((S) h[j] / wS), mode, in23);
+            if (wS == 0) wZeroRow<S> ("V2.mulM33" + ty + ":w-zero", r[j], X[j], wS, mode, in23);
+            else divRow<S, T> ("V2.mulM33" + ty, 3, r[j], X[j], SX[j], X[2], SX[2], mode, in23);
         }
-        else { ++wzero; }
     }
     // V3 x M44
     {
         Q X[4], SX[4], D[3], SD[3];
         for (int j = 0; j < 4; ++j)
         {
-            X[j] = (Q) m4[3][j]; SX[j] = qabs (X[j]);
+            X[j] = (Q) m4h[3][j]; SX[j] = qabs (X[j]);
             Q d = 0, sd = 0;
-            for (int i = 0; i < 3; ++i) { Q t = (Q) v3[i] * (Q) m4[i][j]; d += t; sd += qabs (t); }
+            for (int i = 0; i < 3; ++i) { Q t = (Q) v3[i] * (Q) m4h[i][j]; d += t; sd += qabs (t); }
             X[j] += d; SX[j] += sd;
             if (j < 3) { D[j] = d; SD[j] = sd; }
         }
         Vec3<S> rd;
-        m4.multDirMatrix (v3, rd);
+        m4h.multDirMatrix (v3, rd);
         Vec3<C> refd;
-        w4.multDirMatrix (Vec3<C> ((C) v3.x, (C) v3.y, (C) v3.z), refd);
+        w4h.multDirMatrix (Vec3<C> ((C) v3.x, (C) v3.y, (C) v3.z), refd);
         for (int j = 0; j < 3; ++j)
         {
             sumRow<S, T> ("M44.multDirMatrix" + ty, 3, rd[j], D[j], SD[j], mode, in34);
             if (mixed) same<S> ("M44.multDirMatrix" + ty + ":vs-widened", "bitwise", rd[j], (S) refd[j], mode, in34);
         }
-        C wc = (C) v3.x * (C) m4[0][3] + (C) v3.y * (C) m4[1][3] + (C) v3.z * (C) m4[2][3] + (C) m4[3][3];
-        if ((S) wc != 0)
+        Vec3<S> r = v3 * m4h, ra = v3, rm;
+        ra *= m4h;
+        m4h.multVecMatrix (v3, rm);
+        Vec4<C> h = Vec4<C> ((C) v3.x, (C) v3.y, (C) v3.z, (C) 1) * w4h;
+        S       wS = (S) h[3];
+        if (wS == 0) ++wzero;
+        for (int j = 0; j < 3; ++j)
         {
-            Vec3<S> r = v3 * m4, ra = v3, rm;
-            ra *= m4;
-            m4.multVecMatrix (v3, rm);
-            Vec4<C> h = Vec4<C> ((C) v3.x, (C) v3.y, (C) v3.z, (C) 1) * w4;
-            for (int j = 0; j < 3; ++j)
-            {
-                divRow<S, T> ("V3.mulM44" + ty, 4, r[j], X[j], SX[j], X[3], SX[3], mode, in34);
-                same<S> ("V3.mulAssignM44" + ty, "bitwise", ra[j], r[j], mode, in34);
-                same<S> ("M44.multVecMatrix" + ty, "bitwise", rm[j], r[j], mode, in34);
-                if (mixed) same<S> ("V3.mulM44" + ty + ":vs-widened", "bitwise", r[j], (S) ((S) h[j] / (S) h[3]), mode, in34);
-            }
+            same<S> ("V3.mulAssignM44" + ty, "bitwise", ra[j], r[j], mode, in34);
+            same<S> ("M44.multVecMatrix" + ty, "bitwise", rm[j], r[j], mode, in34);
+            if (mixed) same<S> ("V3.mulM44" + ty + ":vs-widened", "bitwise", r[j], (S) ((S) h[j] / wS), mode, in34);
+            if (wS == 0) wZeroRow<S> ("V3.mulM44" + ty + ":w-zero", r[j], X[j], wS, mode, in34);
+            else divRow<S, T> ("V3.mulM44" + ty, 4, r[j], X[j], SX[j], X[3], SX[3], mode, in34);
         }
-        else { ++wzero; }
     }
 }
 
 int main (int argc, char** argv)
 {
     rng.seed (argc > 1 ? strtoul (argv[1], 0, 10) : 1);
-    long n = argc > 2 ? atol (argv[2]) : 20000;
+    long n = argc > 2 ? atol (argv[2]) : 25000;
     for (long i = 0; i < n; ++i)
     {
-        int mode = (int) (i % 4);
+        int mode = (int) (i % NMODES);
         runMat<float, 2> (mode, i); runMat<float, 3> (mode, i); runMat<float, 4> (mode, i);
         runMat<double, 2> (mode, i); runMat<double, 3> (mode, i); runMat<double, 4> (mode, i);
         runMinors<float> (mode, i); runMinors<double> (mode, i);
@@ -571,16 +642,18 @@ int main (int argc, char** argv)
         runVecMat<float, float> (mode); runVecMat<double, double> (mode);
         runVecMat<float, double> (mode); runVecMat<double, float> (mode);
     }
-    double worst = 0;
-    for (auto& kv : fams) worst = std::max (worst, kv.second.worst);
+    double worst = 0, worstX = 0;
+    for (auto& kv : fams) { worst = std::max (worst, kv.second.worst); worstX = std::max (worstX, kv.second.worstX); }
     long fm33 = 0, fm44 = 0;
     for (char c : fm33seen) fm33 += c;
     for (char c : fm44seen) fm44 += c;
     for (auto& kv : fams)
-        printf ("FAMILY %s kind=%s c=%.6g evals=%ld lattice=%ld skipped=%ld fails=%ld worst_frac=%.6f\n", kv.first.c_str (), kv.second.kind.c_str (),
-                kv.second.c, kv.second.evals, kv.second.lattice, kv.second.skipped, kv.second.fails, kv.second.worst);
-    printf ("RESIDUE evals=%ld lattice_exact=%ld failures=%ld worst_frac=%.6f w_zero_skipped=%ld w_illconditioned_skipped=%ld fastminor33_tuples=%ld fastminor44_tuples=%ld affine_hits=%ld,%ld",
-            evals, lattice, failures, worst, wzero, wcond, fm33, fm44, affineHits[0], affineHits[1]);
+        printf ("FAMILY %s kind=%s c=%.6g evals=%ld lattice=%ld extreme=%ld skipped=%ld fails=%ld worst_frac=%.6f worst_frac_extreme=%.6f mean_frac=%.6f mean_frac_extreme=%.6f\n",
+                kv.first.c_str (), kv.second.kind.c_str (), kv.second.c, kv.second.evals, kv.second.lattice, kv.second.extreme, kv.second.skipped, kv.second.fails,
+                kv.second.worst, kv.second.worstX, kv.second.cnt ? kv.second.sum / kv.second.cnt : 0.0, kv.second.cntX ? kv.second.sumX / kv.second.cntX : 0.0);
+    printf ("RESIDUE evals=%ld lattice_exact=%ld failures=%ld worst_frac=%.6f worst_frac_extreme=%.6f w_zero_cases=%ld w_zero_lattice_checked=%ld "
+            "w_illconditioned_skipped=%ld extreme_calls_underflow=%ld extreme_calls_overflow=%ld fastminor33_tuples=%ld fastminor44_tuples=%ld affine_hits=%ld,%ld",
+            evals, lattice, failures, worst, worstX, wzero, wzeroLattice, wcond, xband[0], xband[1], fm33, fm44, affineHits[0], affineHits[1]);
     for (int t = 0; t < 2; ++t)
     {
         printf (" det44_zero_pattern_hits_%s=", t ? "double" : "float");
